@@ -259,6 +259,7 @@ func c06r1(c *Ctx, r *Report) {
 }
 
 func runC06(c *Ctx, r *Report) {
+	defer round8(c, r, "C06")
 	l := c.L
 	c06r1(c, r)
 	defer c13r8(c, r) // a record is built into its slot under the list lock (Snapshot copies the last chunk under it)
@@ -449,11 +450,13 @@ func checkBuilder(r *Report, b *ssa.Function) {
 // ------------------------------------------------------------------------------------------ C10
 
 func runC10(c *Ctx, r *Report) {
+	defer round8(c, r, "C10")
 	l := c.L
 	defer func() {
 		c10r5(c, r)
 		c08r15(c, r) // a change-nth request is not lost to a request that follows it
 		c08r17(c, r) // change-nth compares with the value it replaces
+		c08r16(c, r) // change-nth is a minor revision: the mergers of the old field selection go with it
 		c10r6(c, r)
 		c10r7(c, r)
 		c10r8(c, r)
